@@ -16,6 +16,75 @@ ASSUMPTIONS = [
     "crash points: the instant before each mutating system call the shim sees (write, fsync/fdatasync, link, rename, unlink, mkdir, rmdir, creating open)",
     "sequential driver with single-step flush/compaction (hook H1); the verifier runs in-process between operations and once more after every recovery",
     "recovered state is read through the public API (load of every key) in a fresh process",
+    "schedules: besides the sequential one, those in which the memtable thread is descheduled just before it renames a flushed log into trash/ "
+    "while clients, compactions, readers and the verifier run on until the crash (shim SHIM_STALL_AT; no second flush or reopen inside such a window)",
+]
+
+# the clean-up race of round-4 seed C08-3: S flushed, its log not yet in trash (memtable thread descheduled), a reader holds the version,
+# a compaction retires S (the manifest says -S, the file stays in sst/ because of the reader), crash: the replayed log re-adds S
+C15 = [["compact"]] * 15
+
+
+def stalled_merge_doc(run, keyset, nkeys, ka, kb, opts, tail):
+    """A flushed file S merged away while its log is still in the store's root.  Trivial moves cost no system call and are always
+    preferred, and a level is only considered for a merge while the level above it holds something.  So: A = {ka} and X = {kb} sink
+    to the last level, Y = {kb} stops above X (stable: nothing above it); T = {kb} is flushed and left in level 0; S = {ka} is
+    flushed last.  The steps that follow sink S and T together: S stops beside Y (A is below it), T stops above Y, and the next
+    step merges S with A (ka < kb: S is the first candidate of its level).  With the retirement of S's log held back and a
+    reader holding the version, a crash after that merge leaves: -S in the manifest, S in sst/, the log of S in the root."""
+    v = [0]
+
+    def put(k):
+        v[0] += 1
+        return ["put", k, v[0]]
+    # A also holds a key between ka and kb, S holds ka three times: the merged file differs from both (were it equal to S, the merge would
+    # re-create S under its own name and never retire it), and S is larger than A (the score of the merge is not negative)
+    ops = [put(ka), put(ka + 1), ["flush"]] + C15 + [put(kb), ["flush"]] + C15 + [put(kb), ["flush"]] + C15 + [put(kb), ["flush"]]
+    ops += [put(ka), put(ka), put(ka), ["flush"], ["hold", 1, ["U", 0], ["U", 0]]] + C15 + C15 + [["compact"]] + tail
+    o = {"memtable-size-bytes": 1 << 26, "max-compaction-files": 64, "l0-mandatory-compaction-threshold-files": 4}
+    o.update(opts)
+    return {"run": run, "mode": "kvs", "opts": o, "keyset": keyset, "nkeys": nkeys, "pad": 0, "ops": ops}
+
+
+def gen_merge_history(rng, i, focus):
+    """The stack recipe with random keys, options and continuation: the crash campaign then covers every call of real merges
+    (output files, the manifest edit, the roll-over that may follow, inputs moved to trash), with and without a held reader."""
+    nkeys = rng.choice([3, 4])
+    ka = rng.randint(1, nkeys - 2)
+    kb = rng.randint(ka + 2, nkeys)
+    opts = {"l0-mandatory-compaction-threshold-files": rng.choice([4, 6])}
+    if rng.random() < 0.4:
+        opts["mani-log-rollover-ratio"] = rng.choice([0, 1])
+    tail = []
+    vid = 100
+    pending = False
+    for _ in range(rng.randint(3, 7)):
+        r = rng.random()
+        if r < 0.35:
+            vid += 1
+            tail.append(["put", rng.randint(1, nkeys), vid]); pending = True
+        elif r < 0.45:
+            tail.append(["del", rng.randint(1, nkeys)]); pending = True
+        elif r < 0.55 and pending:
+            tail.append(["flush"]); pending = False
+        elif r < 0.75:
+            tail += [["compact"]] * rng.choice([1, 2, 16])
+        elif r < 0.85:
+            tail.append(["verify"])
+        elif r < 0.93:
+            tail.append(["drop", 1])
+        else:
+            tail.append(["reopen"]); pending = False
+    tail += [["compact"], ["verify"]] if focus == "C08" else []
+    doc = stalled_merge_doc(i, rng.choice(["plain", "prefix"]), nkeys, ka, kb, opts, tail)
+    if rng.random() < 0.4:
+        doc["ops"] = [o for o in doc["ops"] if o[0] not in ("hold", "drop")]      # no reader: the inputs go to trash at once
+    return doc
+
+
+PINNED = [
+    stalled_merge_doc(900, "plain", 3, 1, 3, {}, [["put", 1, 90], ["compact"], ["verify"], ["drop", 1], ["compact"], ["verify"]]),
+    stalled_merge_doc(901, "prefix", 3, 1, 3, {"mani-log-rollover-ratio": 0}, [["verify"], ["del", 2], ["compact"], ["verify"]]),
 ]
 
 
@@ -31,8 +100,17 @@ def gen_history(rng, i, focus):
     ops = []
     vid = 0
     pending = False
+    held = []
     for _ in range(rng.randint(7, 13)):
         r = rng.random()
+        if focus == "C08" and rng.random() < 0.12:
+            # a reader snapshot held across whatever follows (files it reads are retired only when it goes)
+            if held and rng.random() < 0.5:
+                ops.append(["drop", held.pop()])
+            else:
+                held.append(len(held) + 1 + 10 * len(ops))
+                ops.append(["hold", held[-1], ["U", 0], ["U", 0]])
+            continue
         if r < 0.38:
             vid += 1
             ops.append(["put", rng.randint(1, nkeys), vid]); pending = True
@@ -53,7 +131,7 @@ def gen_history(rng, i, focus):
         elif r < 0.93 or (focus == "C08" and r < 0.97):
             ops.append(["verify"])
         else:
-            ops.append(["reopen"]); pending = False
+            ops.append(["reopen"]); pending = False; held = []
     if focus == "C08":
         ops += [["flush"]] if pending else []
         ops += [["compact"], ["compact"], ["verify"], ["compact"], ["verify"]]
@@ -76,7 +154,7 @@ def recover(dp, root, logp):
         raise ToolError(f"store-recover rc={p.returncode}: {p.stderr[-300:]}")
 
 
-def one_history(wd, doc, fault_stride):
+def one_history(wd, doc, fault_stride, stall_cap=0):
     d = os.path.join(wd, f"h{doc['run']}")
     os.makedirs(d, exist_ok=True)
     dp = os.path.join(d, "doc.json")
@@ -133,8 +211,66 @@ def one_history(wd, doc, fault_stride):
                 out.write('{"call":"reset","n":0}\n')
                 out.write(open(lp).read())
                 runs += 1
+        # held-back log retirements: crash at the points that follow, up to the next flush or reopen
+        stall_runs = 0
+        kind = {}
+        for line in lines:
+            j = json.loads(line)
+            if j["call"] != "mark":
+                kind[j["n"]] = j["call"]
+        for n_s, hi in stall_windows(lines, ncalls):
+            pts = list(range(n_s + 1, hi + 1))
+            if stall_cap and len(pts) > stall_cap:
+                # the points around directory operations and syncs first (where the durable state changes shape), then evenly
+                key = [n for n in pts if kind.get(n) in ("link", "rename", "unlink", "fsync", "fdatasync") or kind.get(n - 1) in ("link", "rename", "fsync", "fdatasync")]
+                if len(key) > stall_cap:
+                    step = len(key) / float(stall_cap)
+                    key = [key[int(i * step)] for i in range(stall_cap)]
+                pts = sorted(set(key) | {pts[-1]})
+            for n in pts:
+                for model in ("a", "b"):
+                    shutil.rmtree(scratch, ignore_errors=True)
+                    lp = os.path.join(d, "run.ndjson")
+                    if os.path.exists(lp):
+                        os.remove(lp)
+                    rc, root = shim_run(dp, scratch, lp, {"SHIM_STALL_AT": str(n_s), "SHIM_CRASH_AT": str(n), "SHIM_MODEL": model})
+                    if rc == 0:
+                        continue        # with the log left in place the run makes fewer calls than the fault-free one: no such point
+                    if rc != 77:
+                        raise ToolError(f"stall run stall={n_s} crash={n} model={model} rc={rc}")
+                    recover(dp, root, lp)
+                    out.write('{"call":"reset","n":0}\n')
+                    out.write(open(lp).read())
+                    runs += 1
+                    stall_runs += 1
     shutil.rmtree(scratch, ignore_errors=True)
-    return trace, runs, ncalls
+    return trace, runs, ncalls, stall_runs
+
+
+def stall_windows(lines, ncalls):
+    """(n of a flushed log's rename into trash/, last crash point of its window) from a fault-free shim log."""
+    evs = [json.loads(x) for x in lines]
+    out = []
+    cur = None
+    for idx, j in enumerate(evs):
+        if j["call"] == "mark":
+            m = j["mark"]
+            if m.get("op") == "begin":
+                cur = m["opv"][0]
+            elif m.get("op") in ("ack", "err"):
+                cur = None
+            elif m.get("op") == "close":
+                break
+            continue
+        if cur == "flush" and j["call"] == "rename" and j["path"].startswith("log.") and j["path2"].startswith("trash/") and not j.get("fail") and not j.get("ret"):
+            hi = ncalls
+            for k in evs[idx + 1:]:
+                if k["call"] == "mark" and (k["mark"].get("op") == "close" or (k["mark"].get("op") == "begin" and k["mark"]["opv"][0] in ("flush", "reopen", "ingest"))):
+                    hi = min(ncalls, k["n"] + 1)
+                    break
+            if hi > j["n"]:
+                out.append((j["n"], hi))
+    return out
 
 
 def validate(wd, name, trace):
@@ -166,16 +302,18 @@ def check_prop(prop, replay=None):
         docs = [json.load(open(replay))["doc"]]
     else:
         n = 6 if vlib.tier() == "quick" else 40
-        docs = [gen_history(rng, i, prop) for i in range(n)]
+        docs = [gen_merge_history(rng, i, prop) if i % 3 == 2 else gen_history(rng, i, prop) for i in range(n)] + (PINNED if prop == "C08" else PINNED[:1])
     stride = 3 if vlib.tier() == "quick" else 1
+    stall_cap = 24 if vlib.tier() == "quick" else 0
 
     def work(doc):
-        trace, runs, ncalls = one_history(wd, doc, stride)
-        return doc, trace, runs, ncalls, validate(wd, f"disk{doc['run']}", trace)
+        trace, runs, ncalls, stall_runs = one_history(wd, doc, stride, stall_cap)
+        return doc, trace, runs, ncalls, stall_runs, validate(wd, f"disk{doc['run']}", trace)
 
     with concurrent.futures.ThreadPoolExecutor(max_workers=12) as ex:
         results = list(ex.map(work, docs))
-    for doc, trace, runs, ncalls, info in results:
+    for doc, trace, runs, ncalls, stall_runs, info in results:
+        out.extra["stalled_schedule_crashes"] = out.extra.get("stalled_schedule_crashes", 0) + stall_runs
         out.states += info["states"]
         out.transitions += info["generated"]
         out.extra["crash_points"] = out.extra.get("crash_points", 0) + 2 * ncalls
@@ -205,7 +343,7 @@ def check_prop(prop, replay=None):
     out.samples = [json.dumps(d, separators=(",", ":"))[:500] for d in docs[:2]]
     out.extra["rule"] = ("seeded store histories (put/del/batch/flush/compaction steps/verifier passes/reopen, option grid incl. frequent manifest "
                          "roll-over) under the syscall shim: fault-free run, crash before every mutating call in models (a) and (b), EIO and ENOSPC "
-                         "injected at calls; each followed by a reopen in a fresh process, a verifier pass and a second reopen; every trace "
+                         "injected at calls, and crashes in the schedules where a flushed log's retirement is held back; each followed by a reopen in a fresh process, a verifier pass and a second reopen; every trace "
                          "validated by TLC against Trace_Disk")
     return out.finish("model_checking", ASSUMPTIONS)
 
